@@ -121,6 +121,59 @@ def classify_as_lines(ix: Index, f: FuncDef) -> str:
     return 'UNKNOWN'
 
 
+def _re_iterable(ix: Index, f: FuncDef, v, with_bound, depth: int = 0):
+    """a description when the expression is a re-iterable collection (list, tuple, str, attribute / name holding
+    one); None when it is an iterator or not known to be a collection"""
+    if isinstance(v, (ast.List, ast.Tuple, ast.ListComp, ast.Set, ast.SetComp, ast.Dict, ast.DictComp)):
+        return 'a %s built on the spot' % type(v).__name__.lower()
+    if isinstance(v, ast.Constant) and isinstance(v.value, (str, tuple)):
+        return 'the constant %r' % (v.value,)
+    if isinstance(v, ast.Call):
+        d = ix.callee(f.module, f, v)
+        if isinstance(d, External) and d.dotted in ('builtins.list', 'builtins.tuple', 'builtins.sorted'):
+            return 'the result of %s(..)' % d.dotted.split('.')[-1]
+        if isinstance(d, FuncDef) and not d.is_generator and d.node.returns is not None:
+            r = unparse(d.node.returns)
+            if r.split('[')[0].split('.')[-1] in ('List', 'Sequence', 'Tuple', 'list', 'tuple', 'str'):
+                return 'the result of %s, declared %s' % (d.name, r)
+        return None
+    if isinstance(v, ast.Name):
+        if v.id in with_bound or depth > 3:
+            return None
+        bs = f.local_bindings().get(v.id, [])
+        for b in bs:
+            if b[0] in ('assign', 'annassign') and b[1] is not None:
+                r = _re_iterable(ix, f, b[1], with_bound, depth + 1)
+                if r is not None:
+                    return '`%s`, which is %s' % (v.id, r)
+        return None
+    if isinstance(v, ast.Attribute) and isinstance(v.value, ast.Name) and f.cls is not None and v.value.id == f.self_name:
+        # an attribute of the object: what is stored in it
+        for m in f.cls.methods.values():
+            for n in walk_own(m.node):
+                tgt = None
+                if isinstance(n, ast.Assign) and len(n.targets) == 1:
+                    tgt, val, ann = n.targets[0], n.value, None
+                elif isinstance(n, ast.AnnAssign):
+                    tgt, val, ann = n.target, n.value, n.annotation
+                if not (isinstance(tgt, ast.Attribute) and isinstance(tgt.value, ast.Name) and tgt.value.id == m.self_name
+                        and tgt.attr == v.attr):
+                    continue
+                if ann is not None and unparse(ann).split('[')[0].split('.')[-1] in ('List', 'Sequence', 'Tuple', 'list', 'tuple', 'str'):
+                    return 'the stored `%s`, declared %s' % (unparse(v), unparse(ann))
+                if val is not None:
+                    r = _re_iterable(ix, m, val, set(), depth + 1)
+                    if r is not None:
+                        return 'the stored `%s`, which is %s' % (unparse(v), r)
+                    if isinstance(val, ast.Name):
+                        p = m.param(val.id)
+                        if p is not None and p.annotation is not None and \
+                                unparse(p.annotation).split('[')[0].split('.')[-1] in ('List', 'Sequence', 'Tuple', 'list', 'tuple', 'str'):
+                            return 'the stored `%s`, given as %s' % (unparse(v), unparse(p.annotation))
+        return None
+    return None
+
+
 def clause_a(c: Check):
     ix = c.ix
     base = ix.cls(SSC)
@@ -153,6 +206,27 @@ def clause_a(c: Check):
                  'lone \\r, while file-backed texts are split at \\n only: the same text has a different number of lines '
                  'depending on how it is stored' % cls.name, f.loc(), detail=k)
     c.sample({'as_lines splitter classes': table})
+    # what as_lines hands out is a ONE-SHOT iterator (the interface says Iterator[str]): consumers read a text in
+    # consecutive loops over the same object (skip n lines, then take m lines) and rely on the second loop going on
+    # where the first one stopped.  A list / tuple / other re-iterable value restarts at line 1 in every loop.
+    n_vals = 0
+    for cls, f in impls:
+        with_bound = set()
+        for w in ast.walk(f.node):
+            if isinstance(w, ast.With):
+                for it in w.items:
+                    if isinstance(it.optional_vars, ast.Name):
+                        with_bound.add(it.optional_vars.id)
+        for n in walk_own(f.node):
+            if not (isinstance(n, ast.Yield) and n.value is not None):
+                continue
+            n_vals += 1
+            why = _re_iterable(ix, f, n.value, with_bound)
+            c.expect(why is None, 'C14-a', 'as_lines-yields-one-shot-iterator/' + cls.key,
+                     '%s.as_lines hands out %s, which can be iterated again from the start: a consumer that reads the '
+                     'lines in consecutive loops (skip, then take) sees the first lines twice - but only for a text '
+                     'held this way' % (cls.name, why), '%s:%d' % (f.module.relpath, n.lineno))
+    c.floor('C14-a', 'values handed out by implementations of as_lines', n_vals, 8)
     # helper: the repository's splitter splits at newline only
     h = ix.try_lookup('exactly_lib.util.str_.read_lines:split_lines__keep_ends')
     if isinstance(h, FuncDef):
